@@ -12,13 +12,13 @@ RULE = ("cases = generated design specs K1-K11 with emphasis on MinimumTrials, E
         "per case the reported count and the length of every list of every returned sequence are compared with R")
 ASSUMPTIONS = ["reference model R (vlib/ref.py) trial-count arithmetic is the documented one"]
 MINIMUMS = {"quick": {"T_compared": 400, "sequences_length_checked": 1500, "T_gt_crossing_size": 60},
-            "thorough": {"T_compared": 6000, "sequences_length_checked": 25000, "T_gt_crossing_size": 900}}
+            "thorough": {"T_compared": 1400, "sequences_length_checked": 5250, "T_gt_crossing_size": 210}}
 CASE_TIMEOUT = 90
 CLASSES = ["K1", "K2", "K3", "K4", "K5", "K6", "K6", "K7", "K7", "K8", "K8", "K9", "K9", "K10", "K11", "K11", "K12", "K12"]
 
 
 def cases(tier, seed):
-    return D.spec_cases(tier, seed, CLASSES, 640, 9600, "c16")
+    return D.spec_cases(tier, seed, CLASSES, 640, 3600, "c16")
 
 
 def run_case(case):
